@@ -235,7 +235,7 @@ fn time_until<const N: usize>() {
 // @assume as c29_remove_stale_2
 // @enc DcpsDomainParticipant::time_until_stale_writer_sample
 #[kani::proof]
-#[kani::unwind(4)]
+#[kani::unwind(3)]
 #[kani::stub(critical_section::acquire, super::support_cs::cs_acquire)]
 #[kani::stub(critical_section::release, super::support_cs::cs_release)]
 fn c29_time_until_stale_2() {
@@ -248,7 +248,7 @@ fn c29_time_until_stale_2() {
 // @assume as c29_remove_stale_2
 // @enc DcpsDomainParticipant::time_until_stale_writer_sample
 #[kani::proof]
-#[kani::unwind(5)]
+#[kani::unwind(4)]
 #[kani::stub(critical_section::acquire, super::support_cs::cs_acquire)]
 #[kani::stub(critical_section::release, super::support_cs::cs_release)]
 fn c29_time_until_stale_3() {
